@@ -1,57 +1,701 @@
-import MqttVerif.Conn.Lemmas.Basic
+import MqttVerif.Conn.Lemmas.Reset
+import MqttVerif.Conn.Lemmas.Session
 /-!
-# C10 — connection-scoped state never leaks into the next connection (first instalment)
-
-`notify_closed` resets the connection scope for EVERY state (reachable or not): these are
-statements about what the function overwrites.  The state-equality-with-a-fresh-object
-theorems are being added on top (DESIGN.md §5 C10); the driver compares a reused object with a
-fresh one on every new-session script (`Y` lines).
+# C10 — connection-scoped state never leaks into the next connection or session
 -/
 set_option linter.unusedSimpArgs false
 set_option linter.unusedVariables false
 namespace MqttVerif.Conn
 open MqttVerif
 
-/-- releasing identifiers touches only the allocator and the sticky panic field -/
-theorem releaseIfUsed_frame (c : C) (id : Nat) :
-    ∃ pm pn, (releaseIfUsed c id).s = { c.s with pidMan := pm, panic := pn } ∧ (releaseIfUsed c id).cfg = c.cfg := by
-  unfold releaseIfUsed releaseId
-  by_cases h : isUsed c.s id = true
-  · simp only [h, if_true]
-    split
-    · exact ⟨_, _, rfl, rfl⟩
-    · exact ⟨_, _, rfl, rfl⟩
-  · simp only [h]
-    exact ⟨c.s.pidMan, c.s.panic, rfl, rfl⟩
+/-! ## scopes -/
 
-theorem releaseAll_frame (c : C) (ids : List Nat) :
-    ∃ pm pn, (releaseAll c ids).s = { c.s with pidMan := pm, panic := pn } ∧ (releaseAll c ids).cfg = c.cfg := by
-  induction ids generalizing c with
-  | nil => exact ⟨c.s.pidMan, c.s.panic, rfl, rfl⟩
-  | cons id rest ih =>
-    obtain ⟨pm1, pn1, h1, g1⟩ := releaseIfUsed_frame c id
-    obtain ⟨pm2, pn2, h2, g2⟩ := ih (releaseIfUsed c id)
-    refine ⟨pm2, pn2, ?_, by rw [releaseAll, g2, g1]⟩
-    rw [releaseAll, h2, h1]
+/-- the object after `notify_closed` -/
+def closed (cfg : Cfg) (s : St) : St := (notifyClosed ⟨cfg, s, []⟩).s
 
-/-- the next CONNECT (sent or received) resets what `notify_closed` leaves: receive maxima,
-    counters, keep-alive values incl. the receive timeout (fix, finding #3), alias tables,
-    pending subscribe/unsubscribe ids — for every state -/
-theorem C10_initConn_resets (c : C) (b : Bool) :
-    let s' := (initConn c b).s
-    s'.sendMax = none ∧ s'.recvMax = none ∧ s'.sendCount = 0 ∧ s'.tas = none ∧ s'.tar = none ∧
-    s'.publishRecv = [] ∧ s'.needStore = false ∧ s'.suback = [] ∧ s'.unsuback = [] ∧
-    s'.isClient = b ∧ s'.keepAliveMs = 0 ∧ s'.serverKeepAliveMs = none ∧ s'.recvTimeoutMs = 0 := by
-  simp [initConn]
+/-- a freshly constructed object (`new(ver0)`) carrying the configuration scope of `s`:
+    the five option flags, the PINGREQ interval override and the PINGRESP timeout. -/
+def fresh (cfg : Cfg) (ver0 : Nat) (s : St) : St :=
+  { St.init cfg ver0 with
+    offline := s.offline, autoPub := s.autoPub, autoPing := s.autoPing, autoMap := s.autoMap,
+    autoReplace := s.autoReplace, userInterval := s.userInterval, respTimeoutMs := s.respTimeoutMs }
 
-/-- a new session forgets the whole session scope -/
-theorem C10_new_session_resets (c : C) :
-    let s' := (clearStoreRelated c).s
-    s'.store = [] ∧ s'.puback = [] ∧ s'.pubrec = [] ∧ s'.pubcomp = [] ∧ s'.handled = [] ∧
-    s'.pidMan = Alloc.clear c.s.pidMan := by
-  simp [clearStoreRelated]
+/-- `set_offline_publish(true)` also sets `need_store`; a fresh object whose setters were
+    replayed has `need_store = ns` for some `ns` (true iff offline publish was ever enabled) -/
+def freshNS (cfg : Cfg) (ver0 : Nat) (s : St) (ns : Bool) : St :=
+  { fresh cfg ver0 s with needStore := ns }
 
-example : (initConn { cfg := ⟨.server, 2⟩, s := { (St.init ⟨.server, 2⟩ 5) with recvTimeoutMs := 15000, sendMax := some 3 } } false).s.recvTimeoutMs = 0 := by
+/-- overwrite the session scope of `f` by that of `t` -/
+def withSession (f t : St) : St :=
+  { f with pidMan := t.pidMan, puback := t.puback, pubrec := t.pubrec, pubcomp := t.pubcomp,
+           store := t.store, handled := t.handled, needStore := t.needStore }
+
+/-- what every accepted CONNECT (sent or received) overwrites before reading; with clean
+    start also the session scope -/
+def scrub (clean : Bool) (s : St) : St :=
+  let s := { s with suback := [], unsuback := [], needStore := false, tar := none, tas := none,
+                    sendMax := none, recvMax := none, sendCount := 0, publishRecv := [],
+                    keepAliveMs := 0, serverKeepAliveMs := none, recvTimeoutMs := 0,
+                    isClient := false }
+  if clean then
+    { s with pidMan := Alloc.clear s.pidMan, puback := [], pubrec := [], pubcomp := [], store := [],
+             handled := [] }
+  else s
+
+theorem psV3Connect_scrub (cfg : Cfg) (a : St) (ev : List Ev) (p : Pkt) (hd : a.status = .disconnected) :
+    psV3Connect ⟨cfg, a, ev⟩ p = psV3Connect ⟨cfg, scrub p.clean a, ev⟩ p := by
+  cases a
+  cases hc : p.clean <;>
+    simp_all [psV3Connect, initConn, clearStoreRelated, sendPostProcess, C.push, scrub, Alloc.clear]
+
+theorem psV5Connect_scrub (cfg : Cfg) (a : St) (ev : List Ev) (p : Pkt) (hd : a.status = .disconnected)
+    (hs : p.sz cfg.pw ≤ a.mpsSend) :
+    psV5Connect ⟨cfg, a, ev⟩ p = psV5Connect ⟨cfg, scrub p.clean a, ev⟩ p := by
+  cases a
+  cases hc : p.clean <;>
+    simp_all [psV5Connect, initConn, clearStoreRelated, sizeOk, C.err, C.push, scrub, Alloc.clear,
+      Nat.not_lt.2 hs]
+
+theorem prV3Connect_scrub (cfg : Cfg) (a : St) (ev : List Ev) (p : Pkt) (hd : a.status = .disconnected) :
+    prV3Connect ⟨cfg, a, ev⟩ (.ok p) = prV3Connect ⟨cfg, scrub p.clean a, ev⟩ (.ok p) := by
+  cases a
+  cases hc : p.clean <;> by_cases hk : p.keepAlive > 0 <;>
+    simp_all [prV3Connect, initConn, clearStoreRelated, refreshPingreqRecv, C.push, scrub, Alloc.clear]
+
+theorem prV5Connect_scrub (cfg : Cfg) (a : St) (ev : List Ev) (p : Pkt) (hd : a.status = .disconnected) :
+    prV5Connect ⟨cfg, a, ev⟩ (.ok p) = prV5Connect ⟨cfg, scrub p.clean a, ev⟩ (.ok p) := by
+  cases a
+  cases hc : p.clean <;> by_cases hk : p.keepAlive > 0 <;>
+    simp_all [prV5Connect, initConn, clearStoreRelated, C.push, scrub, Alloc.clear]
+
+theorem prV3Connect_scrub' (cfg : Cfg) (a b : St) (ev : List Ev) (p : Pkt)
+    (hd : a.status = .disconnected) (hb : b.status = .disconnected)
+    (h : scrub p.clean a = scrub p.clean b) :
+    prV3Connect ⟨cfg, a, ev⟩ (.ok p) = prV3Connect ⟨cfg, b, ev⟩ (.ok p) := by
+  rw [prV3Connect_scrub cfg a ev p hd, prV3Connect_scrub cfg b ev p hb, h]
+
+theorem prV5Connect_scrub' (cfg : Cfg) (a b : St) (ev : List Ev) (p : Pkt)
+    (hd : a.status = .disconnected) (hb : b.status = .disconnected)
+    (h : scrub p.clean a = scrub p.clean b) :
+    prV5Connect ⟨cfg, a, ev⟩ (.ok p) = prV5Connect ⟨cfg, b, ev⟩ (.ok p) := by
+  rw [prV5Connect_scrub cfg a ev p hd, prV5Connect_scrub cfg b ev p hb, h]
+
+@[simp] theorem scrub_ver (cl : Bool) (a : St) : (scrub cl a).ver = a.ver := by cases cl <;> rfl
+@[simp] theorem scrub_status (cl : Bool) (a : St) : (scrub cl a).status = a.status := by cases cl <;> rfl
+@[simp] theorem scrub_mpsSend (cl : Bool) (a : St) : (scrub cl a).mpsSend = a.mpsSend := by cases cl <;> rfl
+@[simp] theorem scrub_mpsRecv (cl : Bool) (a : St) : (scrub cl a).mpsRecv = a.mpsRecv := by cases cl <;> rfl
+@[simp] theorem scrub_pb (cl : Bool) (a : St) : (scrub cl a).pb = a.pb := by cases cl <;> rfl
+theorem scrub_idem (cl : Bool) (a : St) : scrub cl (scrub cl a) = scrub cl a := by
+  cases cl <;> simp [scrub, Alloc.clear]
+theorem scrub_set_pb_ver (cl : Bool) (a : St) (x : Framing.PB) (v : Nat) :
+    scrub cl { a with pb := x, ver := v } = { scrub cl a with pb := x, ver := v } := by
+  cases cl <;> rfl
+
+/-- `op` is an accepted connection start on an idle object whose version field is `ver`: a
+    CONNECT `p` handed to `send`, or input bytes that complete a CONNECT frame whose parse is
+    `.ok p` (`ver = 0`: an undetermined server reads the protocol level from the frame). -/
+inductive ConnStart (cfg : Cfg) (ver : Nat) : Op → Pkt → Prop
+  | sent (p : Pkt) (hk : p.kind = .connect) (hv : p.ver = ver) (h45 : ver = 4 ∨ ver = 5)
+      (hr : cfg.role ≠ .server) (hs : ver = 5 → p.size ≤ noLimit) : ConnStart cfg ver (.send p) p
+  | received (inp : List Nat) (parse : Nat → Nat → List Nat → Except Nat Pkt)
+      (pb : Framing.PB) (fh : Nat) (data rest : List Nat) (p : Pkt) (v : Nat)
+      (hf : Framing.feed Framing.PB.reset inp = (pb, some (.complete fh data), rest))
+      (ht : fh / 16 = 1) (hsz : totalSize data.length ≤ noLimit) (hr : cfg.role ≠ .client)
+      (hv : (ver = 0 ∧ 7 ≤ data.length ∧ v = data.getD 6 0) ∨ (ver ≠ 0 ∧ v = ver))
+      (h45 : v = 4 ∨ v = 5) (hp : parse v fh data = .ok p) : ConnStart cfg ver (.recv inp parse) p
+
+/-- an object between two connections, as `notify_closed` and `new` leave it -/
+structure Idle (a : St) : Prop where
+  status : a.status = .disconnected
+  mpsSend : a.mpsSend = noLimit
+  mpsRecv : a.mpsRecv = noLimit
+  pb : a.pb = Framing.PB.reset
+
+theorem Idle.scrub {a : St} (h : Idle a) (cl : Bool) : Idle (scrub cl a) :=
+  ⟨by simp [h.status], by simp [h.mpsSend], by simp [h.mpsRecv], by simp [h.pb]⟩
+
+theorem connStart_scrub_sent {cfg : Cfg} {a : St} {p : Pkt} (hi : Idle a)
+    (hk : p.kind = .connect) (hv : p.ver = a.ver) (h45 : a.ver = 4 ∨ a.ver = 5)
+    (hr : cfg.role ≠ .server) (hs : a.ver = 5 → p.size ≤ noLimit) :
+    step cfg a (.send p) = step cfg (scrub p.clean a) (.send p) := by
+  obtain ⟨hd, hms, hmr, hpb⟩ := hi
+  have hrole : roleMaySend cfg.role p = true := by
+    cases hc : cfg.role <;> simp_all [roleMaySend]
+  simp only [step, send, scrub_ver, hv, ne_eq, not_true_eq_false, if_false, hrole, Bool.not_true,
+    Bool.false_eq_true]
+  rcases h45 with h4 | h5
+  · have : p.ver = 4 := by omega
+    simp only [processSend, this, if_true, hk]
+    exact psV3Connect_scrub cfg a [] p hd
+  · have : p.ver = 5 := by omega
+    have h5' : ¬ (p.ver = 4) := by omega
+    simp only [processSend, h5', if_false, hk]
+    refine psV5Connect_scrub cfg a [] p hd ?_
+    have : p.sz cfg.pw = p.size := by simp [Pkt.sz, hk]
+    rw [this, hms]; exact hs h5
+
+theorem connStart_scrub_received {cfg : Cfg} {a : St} {p : Pkt} (hi : Idle a)
+    {inp : List Nat} {parse : Nat → Nat → List Nat → Except Nat Pkt}
+    {pb : Framing.PB} {fh : Nat} {data rest : List Nat} {v : Nat}
+    (hf : Framing.feed Framing.PB.reset inp = (pb, some (.complete fh data), rest))
+    (ht : fh / 16 = 1) (hsz : totalSize data.length ≤ noLimit) (hr : cfg.role ≠ .client)
+    (hv : (a.ver = 0 ∧ 7 ≤ data.length ∧ v = data.getD 6 0) ∨ (a.ver ≠ 0 ∧ v = a.ver))
+    (h45 : v = 4 ∨ v = 5) (hp : parse v fh data = .ok p) :
+    step cfg a (.recv inp parse) = step cfg (scrub p.clean a) (.recv inp parse) := by
+  obtain ⟨hd, hms, hmr, hpb⟩ := hi
+  have hcan : ∀ s : St, canReceive cfg s 1 = true := by
+    intro s; cases hc : cfg.role <;> simp_all [canReceive]
+  have hnl : ¬ (totalSize data.length > noLimit) := by omega
+  simp only [step, recv, hpb, scrub_pb, hf, processRecvPacket, hmr, scrub_mpsRecv, hnl, if_false,
+    ht, hcan, Bool.not_true, Bool.false_eq_true, scrub_ver]
+  rcases hv with ⟨h0, hlen, hvd⟩ | ⟨hn0, hvv⟩
+  · have hl : ¬ (data.length < 7) := by omega
+    simp only [h0, if_true, hl, if_false, ← hvd]
+    rcases h45 with h4 | h5
+    · simp only [h4, if_true] at hp ⊢
+      rw [hp]
+      exact prV3Connect_scrub' cfg _ _ [] p (by simpa using hd) (by simpa using hd)
+        (by generalize p.clean = cl; cases cl <;> rfl)
+    · have : ¬ (v = 4) := by omega
+      simp only [h5, if_true, (by decide : ¬ ((5:Nat) = 4)), if_false] at hp ⊢
+      rw [hp]
+      exact prV5Connect_scrub' cfg _ _ [] p (by simpa using hd) (by simpa using hd)
+        (by generalize p.clean = cl; cases cl <;> rfl)
+  · simp only [hn0, if_false, dispatchRecv]
+    subst hvv
+    rcases h45 with h4 | h5
+    · simp only [h4, if_true] at hp ⊢
+      rw [hp]
+      exact prV3Connect_scrub' cfg _ _ [] p (by simpa using hd) (by simpa using hd)
+        (by generalize p.clean = cl; cases cl <;> rfl)
+    · simp only [h5, (by decide : ¬ ((5:Nat) = 4)), if_false] at hp ⊢
+      rw [hp]
+      exact prV5Connect_scrub' cfg _ _ [] p (by simpa using hd) (by simpa using hd)
+        (by generalize p.clean = cl; cases cl <;> rfl)
+
+/-- **no connection-scope field is read before it is overwritten**: an accepted connection
+    start on an idle object gives the same result (state and events) as on the scrubbed one -/
+theorem connStart_scrub {cfg : Cfg} {a : St} {op : Op} {p : Pkt} {ver : Nat} (hver : a.ver = ver)
+    (h : ConnStart cfg ver op p) (hi : Idle a) : step cfg a op = step cfg (scrub p.clean a) op := by
+  subst hver
+  cases h with
+  | sent _ hk hv h45 hr hs => exact connStart_scrub_sent hi hk hv h45 hr hs
+  | received _ _ pb fh data rest _ v hf ht hsz hr hv h45 hp =>
+    exact connStart_scrub_received hi hf ht hsz hr hv h45 hp
+
+/-! ## the object after `notify_closed` -/
+
+/-- closed form of the closed object (for EVERY `s`): `closedSt` (see `Lemmas/Reset.lean`) -/
+theorem closed_eq (cfg : Cfg) (s : St) : ∃ pm, Bnd pm s.pidMan ∧
+    closed cfg s = closedSt s pm (closed cfg s).panic := by
+  obtain ⟨pm, pn, hb, _, h⟩ := notifyClosed_eq ⟨cfg, s, []⟩
+  refine ⟨pm, hb, ?_⟩
+  have : (closed cfg s).panic = pn := by rw [closed, h]; rfl
+  rw [this]; exact h
+
+/-- **C10 (3): what `notify_closed` resets**, for every state -/
+theorem C10_closed_resets (cfg : Cfg) (s : St) :
+    let t := closed cfg s
+    t.mpsSend = noLimit ∧ t.mpsRecv = noLimit ∧ t.status = .disconnected ∧ t.tas = none ∧
+    t.tar = none ∧ t.suback = [] ∧ t.unsuback = [] ∧ t.pb = Framing.PB.reset ∧
+    t.sendSet = false ∧ t.recvSet = false ∧ t.respSet = false ∧
+    (s.needStore = false →
+      t.puback = [] ∧ t.pubrec = [] ∧ t.pubcomp = [] ∧ t.store = [] ∧ t.handled = []) := by
+  obtain ⟨pm, hb, h⟩ := closed_eq cfg s
+  dsimp only
+  rw [h]
+  simp only [closedSt, true_and]
+  intro hn; simp [hn]
+
+/-- what `notify_closed` does **not** touch: configuration scope, version, and the fields
+    that only the next CONNECT resets (`initialize`) — finding #29 -/
+theorem C10_closed_keeps (cfg : Cfg) (s : St) :
+    let t := closed cfg s
+    t.ver = s.ver ∧ t.offline = s.offline ∧ t.autoPub = s.autoPub ∧ t.autoPing = s.autoPing ∧
+    t.autoMap = s.autoMap ∧ t.autoReplace = s.autoReplace ∧ t.userInterval = s.userInterval ∧
+    t.respTimeoutMs = s.respTimeoutMs ∧ t.needStore = s.needStore ∧
+    t.sendMax = s.sendMax ∧ t.recvMax = s.recvMax ∧ t.sendCount = s.sendCount ∧
+    t.publishRecv = s.publishRecv ∧ t.keepAliveMs = s.keepAliveMs ∧
+    t.serverKeepAliveMs = s.serverKeepAliveMs ∧ t.recvTimeoutMs = s.recvTimeoutMs ∧
+    t.isClient = s.isClient ∧ Bnd t.pidMan s.pidMan ∧
+    (s.needStore = true → t.puback = s.puback ∧ t.pubrec = s.pubrec ∧ t.pubcomp = s.pubcomp ∧
+      t.store = s.store ∧ t.handled = s.handled) := by
+  obtain ⟨pm, hb, h⟩ := closed_eq cfg s
+  dsimp only
+  rw [h]
+  simp only [closedSt, true_and]
+  exact ⟨hb, fun hn => by simp [hn]⟩
+
+theorem closed_idle (cfg : Cfg) (s : St) : Idle (closed cfg s) := by
+  have := C10_closed_resets cfg s
+  exact ⟨this.2.2.1, this.1, this.2.1, this.2.2.2.2.2.2.2.1⟩
+
+theorem freshNS_idle (cfg : Cfg) (ver0 : Nat) (s : St) (ns : Bool) : Idle (freshNS cfg ver0 s ns) :=
+  ⟨rfl, rfl, rfl, rfl⟩
+
+theorem withSession_idle {f : St} (h : Idle f) (t : St) : Idle (withSession f t) :=
+  ⟨h.status, h.mpsSend, h.mpsRecv, h.pb⟩
+
+/-- the allocator range is the one given at construction (`1 ..= MAX`); preserved by every
+    call (only the pool changes) -/
+def PidRange (cfg : Cfg) (s : St) : Prop := Bnd s.pidMan (Alloc.new 1 cfg.idMax cfg.idMax)
+
+theorem scrub_closed_eq_fresh (cfg : Cfg) (s : St) (ver0 : Nat) (ns : Bool) (hver : s.ver = ver0)
+    (hr : PidRange cfg s) (hp : (closed cfg s).panic = none) :
+    scrub true (closed cfg s) = scrub true (freshNS cfg ver0 s ns) := by
+  obtain ⟨pm, hb, h⟩ := closed_eq cfg s
+  rw [h, hp]
+  obtain ⟨h1, h2, h3⟩ := hb.trans hr
+  simp only [Alloc.new] at h1 h2 h3
+  simp [scrub, closedSt, freshNS, fresh, St.init, Alloc.clear, Alloc.new, h1, h2, h3, hver,
+    Framing.PB.reset]
+
+theorem scrub_closed_eq_withSession (cfg : Cfg) (s : St) (ver0 : Nat) (cl : Bool) (hver : s.ver = ver0)
+    (hp : (closed cfg s).panic = none) :
+    scrub cl (closed cfg s) = scrub cl (withSession (fresh cfg ver0 s) (closed cfg s)) := by
+  obtain ⟨pm, hb, h⟩ := closed_eq cfg s
+  rw [h, hp]
+  cases cl <;> simp [scrub, closedSt, withSession, fresh, St.init, hver, Framing.PB.reset]
+
+/-! ## C10 (1): a new session on a reused object = a new session on a fresh object -/
+
+/-- **C10 (1a, 1b)**: for EVERY state `s` (reachable or not) of an object constructed with
+    version `ver0`, every accepted clean-start CONNECT (sent by a client/any endpoint, or
+    received by a server/any endpoint, v3.1.1 or v5.0, undetermined server included when it
+    is still undetermined) yields on the closed object the same state and the same events as
+    on a freshly constructed object with the same options — whatever `need_store` the
+    replayed option setters left in the fresh object (`ns`). -/
+theorem C10_new_session_eq_fresh (cfg : Cfg) (s : St) (ver0 : Nat) (ns : Bool) (op : Op) (p : Pkt)
+    (hver : s.ver = ver0) (hr : PidRange cfg s) (hp : (closed cfg s).panic = none)
+    (h : ConnStart cfg ver0 op p) (hc : p.clean = true) :
+    (step cfg (closed cfg s) op).s = (step cfg (freshNS cfg ver0 s ns) op).s ∧
+    (step cfg (closed cfg s) op).ev = (step cfg (freshNS cfg ver0 s ns) op).ev := by
+  have hv1 : (closed cfg s).ver = ver0 := by rw [(C10_closed_keeps cfg s).1, hver]
+  have e1 := connStart_scrub hv1 h (closed_idle cfg s)
+  have e2 := connStart_scrub (a := freshNS cfg ver0 s ns) rfl h (freshNS_idle cfg ver0 s ns)
+  rw [e1, e2, hc, scrub_closed_eq_fresh cfg s ver0 ns hver hr hp]
+  exact ⟨rfl, rfl⟩
+
+theorem run_congr {cfg : Cfg} {a b : St} (h : a = b) (ops : List Op) :
+    runEvents cfg a ops = runEvents cfg b ops ∧ run cfg a ops = run cfg b ops := by
+  subst h; exact ⟨rfl, rfl⟩
+
+/-- **C10, consequence**: a reused object that starts a new session produces, for every
+    subsequent script, the same events (and states) as a fresh object with the same options -/
+theorem C10_reuse_trace_equiv (cfg : Cfg) (s : St) (ver0 : Nat) (ns : Bool) (op : Op) (p : Pkt)
+    (hver : s.ver = ver0) (hr : PidRange cfg s) (hp : (closed cfg s).panic = none)
+    (h : ConnStart cfg ver0 op p) (hc : p.clean = true) (ops : List Op) :
+    runEvents cfg (closed cfg s) (op :: ops) = runEvents cfg (freshNS cfg ver0 s ns) (op :: ops) ∧
+    run cfg (closed cfg s) (op :: ops) = run cfg (freshNS cfg ver0 s ns) (op :: ops) := by
+  obtain ⟨hs, he⟩ := C10_new_session_eq_fresh cfg s ver0 ns op p hver hr hp h hc
+  obtain ⟨r1, r2⟩ := run_congr (cfg := cfg) hs ops
+  simp only [runEvents, run, he, r1, r2, and_self]
+
+/-! ## C10 (2): a new connection of the same session -/
+
+/-- **C10 (2)**: every accepted CONNECT (clean or not) on the closed object gives the same
+    state and events as on a fresh object that was given the closed object's session scope:
+    no connection-scope field of the old connection is read before it is overwritten. -/
+theorem C10_next_connection_eq_fresh_with_session (cfg : Cfg) (s : St) (ver0 : Nat) (op : Op)
+    (p : Pkt) (hver : s.ver = ver0) (hp : (closed cfg s).panic = none) (h : ConnStart cfg ver0 op p) :
+    (step cfg (closed cfg s) op).s =
+      (step cfg (withSession (fresh cfg ver0 s) (closed cfg s)) op).s ∧
+    (step cfg (closed cfg s) op).ev =
+      (step cfg (withSession (fresh cfg ver0 s) (closed cfg s)) op).ev := by
+  have hv1 : (closed cfg s).ver = ver0 := by rw [(C10_closed_keeps cfg s).1, hver]
+  have e1 := connStart_scrub hv1 h (closed_idle cfg s)
+  have e2 := connStart_scrub (a := withSession (fresh cfg ver0 s) (closed cfg s)) rfl h
+    (withSession_idle (freshNS_idle cfg ver0 s false) _)
+  rw [e1, e2, scrub_closed_eq_withSession cfg s ver0 p.clean hver hp]
+  exact ⟨rfl, rfl⟩
+
+/-- `need_store` is overwritten by every accepted CONNECT before it is read (this is what
+    makes the `need_store := true` side effect of `set_offline_publish(true)` harmless *for
+    the next connection*; see `C10_need_store_between_connections_witness` for the gap). -/
+theorem C10_needStore_overwritten_by_connect (cfg : Cfg) (a : St) (b : Bool) (op : Op) (p : Pkt)
+    (h : ConnStart cfg a.ver op p) (hi : Idle a) :
+    step cfg { a with needStore := b } op = step cfg a op := by
+  have e1 := connStart_scrub (a := { a with needStore := b }) rfl h ⟨hi.status, hi.mpsSend, hi.mpsRecv, hi.pb⟩
+  have e2 := connStart_scrub rfl h hi
+  rw [e1, e2]
+  congr 1
+
+/-! ## non-vacuity (C10 (4)) -/
+
+instance (a b : Alloc.A) : Decidable (Bnd a b) := by unfold Bnd; infer_instance
+instance (cfg : Cfg) (s : St) : Decidable (PidRange cfg s) := by unfold PidRange; infer_instance
+
+namespace C10ex
+def cfg : Cfg := ⟨.any, 2⟩
+def pub : Pkt :=
+  { ver := 5, kind := .publish, pid := some 1, qos := 1, dup := true, topic := [116], payloadLen := 2 }
+def rel : Pkt := { ver := 5, kind := .pubrel, size := 4, pid := some 2 }
+/-- a v5.0 client in the middle of a connection of a persistent session: negotiated limits,
+    half a frame in the packet builder, a pending SUBSCRIBE id, armed timers, stored packets,
+    a handled QoS 2 id, alias tables, flow-control counters -/
+def s : St :=
+  { ver := 5
+    pidMan := ⟨1, 65535, 65535, [⟨4, 65535⟩]⟩       -- ids 1, 2, 3 in use
+    suback := [3]                                  -- a pending SUBSCRIBE
+    puback := [1], pubcomp := [2]
+    needStore := true
+    store := [(1, pub), (2, rel)]                  -- stored packets
+    offline := true, autoPub := true
+    tar := some { max := 3, m := [(1, [97])] }
+    tas := some { max := 10, a2t := [(1, [116])], t2a := [([116], [1])], alloc := ⟨1, 10, 65535, [⟨2, 10⟩]⟩ }
+    sendMax := some 5, recvMax := some 7, sendCount := 1, publishRecv := [8]
+    mpsSend := 100, mpsRecv := 200                 -- negotiated limits
+    status := .connected
+    userInterval := some 7000
+    keepAliveMs := 10000, serverKeepAliveMs := some 20000, recvTimeoutMs := 15000
+    respTimeoutMs := 3000
+    handled := [9]                                 -- a handled QoS 2 id
+    sendSet := true, respSet := true               -- armed timers
+    pb := { st := .payload, header := [48, 5], remaining := 3, mult := 128, buf := [0, 1] }
+    isClient := true }
+def connect : Pkt :=
+  { ver := 5, kind := .connect, size := 20, clean := true, keepAlive := 30, props := [(pRM, 10), (pSEI, 60)] }
+def frame : List Nat := [16, 7, 0, 4, 77, 81, 84, 84, 5]
+end C10ex
+
+/-- the hypotheses of `C10_new_session_eq_fresh` / `C10_reuse_trace_equiv` are satisfiable by
+    a state that carries every kind of connection- and session-scoped residue -/
+example : C10ex.s.ver = 5 ∧ PidRange C10ex.cfg C10ex.s ∧ (closed C10ex.cfg C10ex.s).panic = none ∧
+    ConnStart C10ex.cfg 5 (.send C10ex.connect) C10ex.connect ∧
+    ConnStart C10ex.cfg 5 (.recv C10ex.frame (fun _ _ _ => .ok C10ex.connect)) C10ex.connect ∧
+    C10ex.connect.clean = true :=
+  ⟨rfl, by decide, by decide,
+   .sent C10ex.connect rfl rfl (Or.inr rfl) (by decide) (fun _ => by decide),
+   .received C10ex.frame _ Framing.PB.reset 16 [0, 4, 77, 81, 84, 84, 5] [] C10ex.connect 5
+     (by decide) (by decide) (by decide) (by decide) (Or.inr ⟨by decide, rfl⟩) (Or.inr rfl) rfl,
+   rfl⟩
+
+/-- … and the closed object really differs from the fresh one before the CONNECT -/
+example : closed C10ex.cfg C10ex.s ≠ freshNS C10ex.cfg 5 C10ex.s true := by decide
+
+/-! ## the version of an undetermined server (finding #22) -/
+
+/-- the statement one would like: the construction-time version may have been
+    "undetermined" (`ver0 = 0`) and the object may since have adopted a version -/
+def C10_full : Prop :=
+  ∀ (cfg : Cfg) (s : St) (ver0 : Nat) (ns : Bool) (op : Op) (p : Pkt),
+    (s.ver = ver0 ∨ (ver0 = 0 ∧ (s.ver = 4 ∨ s.ver = 5))) → PidRange cfg s →
+    (closed cfg s).panic = none → ConnStart cfg ver0 op p → p.clean = true →
+    (step cfg (closed cfg s) op).s = (step cfg (freshNS cfg ver0 s ns) op).s ∧
+    (step cfg (closed cfg s) op).ev = (step cfg (freshNS cfg ver0 s ns) op).ev
+
+namespace C10w22
+def cfg : Cfg := ⟨.server, 2⟩
+/-- a server constructed with `Version::Undetermined` that adopted v3.1.1 from its first client -/
+def s : St := { St.init cfg 0 with ver := 4 }
+def connect : Pkt := { ver := 5, kind := .connect, size := 9, clean := true }
+/-- a parser that accepts the frame as a v5.0 CONNECT and refuses it as v3.1.1 -/
+def parse : Nat → Nat → List Nat → Except Nat Pkt :=
+  fun v _ _ => if v = 5 then .ok connect else .error eUnsupportedVersion
+def op : Op := .recv C10ex.frame parse
+end C10w22
+
+/-- **finding #22**: after close, the reused server still has the adopted version: a v5.0
+    CONNECT is parsed as v3.1.1 and refused (CONNACK rc 1, close, error 0x84), whereas a fresh
+    undetermined server accepts it.  The difference is not confined to the `ver` field. -/
+theorem C10_undetermined_version_sticks_witness :
+    (closed C10w22.cfg C10w22.s).ver = 4 ∧ (freshNS C10w22.cfg 0 C10w22.s false).ver = 0 ∧
+    (step C10w22.cfg (closed C10w22.cfg C10w22.s) C10w22.op).s.ver = 4 ∧
+    (step C10w22.cfg (freshNS C10w22.cfg 0 C10w22.s false) C10w22.op).s.ver = 5 ∧
+    (step C10w22.cfg (closed C10w22.cfg C10w22.s) C10w22.op).ev =
+      [.send (mkV3Connack 1) none, .close, .error eUnsupportedVersion] ∧
+    (step C10w22.cfg (freshNS C10w22.cfg 0 C10w22.s false) C10w22.op).ev = [.recv C10w22.connect] := by
   decide
+
+theorem C10_full_false : ¬ C10_full := by
+  intro h
+  have hcs : ConnStart C10w22.cfg 0 C10w22.op C10w22.connect :=
+    .received C10ex.frame _ Framing.PB.reset 16 [0, 4, 77, 81, 84, 84, 5] [] C10w22.connect 5
+      (by decide) (by decide) (by decide) (by decide) (Or.inl ⟨rfl, by decide, by decide⟩) (Or.inr rfl) rfl
+  have := (h C10w22.cfg C10w22.s 0 false C10w22.op C10w22.connect (Or.inr ⟨rfl, Or.inl rfl⟩)
+    (by decide) (by decide) hcs rfl).1
+  have hv := congrArg St.ver this
+  rw [C10_undetermined_version_sticks_witness.2.2.1, C10_undetermined_version_sticks_witness.2.2.2.1] at hv
+  exact absurd hv (by decide)
+
+/-- an undetermined idle object that receives a CONNECT frame of level `v` behaves exactly
+    like an object constructed with version `v` -/
+theorem undetermined_adopts {cfg : Cfg} {a : St} (hi : Idle a) (h0 : a.ver = 0)
+    {inp : List Nat} {parse : Nat → Nat → List Nat → Except Nat Pkt}
+    {pb : Framing.PB} {fh : Nat} {data rest : List Nat} {v : Nat}
+    (hf : Framing.feed Framing.PB.reset inp = (pb, some (.complete fh data), rest))
+    (ht : fh / 16 = 1) (hsz : totalSize data.length ≤ noLimit) (hr : cfg.role ≠ .client)
+    (hlen : 7 ≤ data.length) (hv : v = data.getD 6 0) (h45 : v = 4 ∨ v = 5) :
+    step cfg a (.recv inp parse) = step cfg { a with ver := v } (.recv inp parse) := by
+  obtain ⟨hd, hms, hmr, hpb⟩ := hi
+  have hcan : ∀ s : St, canReceive cfg s 1 = true := by
+    intro s; cases hc : cfg.role <;> simp_all [canReceive]
+  have hnl : ¬ (totalSize data.length > noLimit) := by omega
+  have hl : ¬ (data.length < 7) := by omega
+  simp only [step, recv, hpb, hf, processRecvPacket, hmr, hnl, if_false,
+    ht, hcan, Bool.not_true, Bool.false_eq_true, h0, if_true, hl, ← hv, dispatchRecv]
+  rcases h45 with h4 | h5
+  · subst h4; simp only [if_true, (by decide : ¬ ((4:Nat) = 0)), if_false]
+  · subst h5; simp only [if_true, (by decide : ¬ ((5:Nat) = 0)), (by decide : ¬ ((5:Nat) = 4)), if_false]
+
+/-- **finding #22, the harmless half**: a server constructed undetermined that adopted
+    version `s.ver` behaves, for a clean-start CONNECT *of that same protocol level*, exactly
+    like a fresh undetermined server (state and events). -/
+theorem C10_new_session_eq_fresh_undetermined_same_level (cfg : Cfg) (s : St) (ns : Bool) (p : Pkt)
+    {inp : List Nat} {parse : Nat → Nat → List Nat → Except Nat Pkt}
+    {pb : Framing.PB} {fh : Nat} {data rest : List Nat}
+    (h45 : s.ver = 4 ∨ s.ver = 5) (hr : PidRange cfg s) (hp : (closed cfg s).panic = none)
+    (hf : Framing.feed Framing.PB.reset inp = (pb, some (.complete fh data), rest))
+    (ht : fh / 16 = 1) (hsz : totalSize data.length ≤ noLimit) (hrole : cfg.role ≠ .client)
+    (hlen : 7 ≤ data.length) (hlvl : data.getD 6 0 = s.ver)
+    (hparse : parse s.ver fh data = .ok p) (hc : p.clean = true) :
+    (step cfg (closed cfg s) (.recv inp parse)).s = (step cfg (freshNS cfg 0 s ns) (.recv inp parse)).s ∧
+    (step cfg (closed cfg s) (.recv inp parse)).ev = (step cfg (freshNS cfg 0 s ns) (.recv inp parse)).ev := by
+  have hn0 : s.ver ≠ 0 := by omega
+  have hcs : ConnStart cfg s.ver (.recv inp parse) p :=
+    .received inp parse pb fh data rest p s.ver hf ht hsz hrole (Or.inr ⟨hn0, rfl⟩) h45 hparse
+  have e := undetermined_adopts (a := freshNS cfg 0 s ns) (parse := parse) (freshNS_idle cfg 0 s ns) rfl hf ht hsz
+    hrole hlen hlvl.symm h45
+  rw [e]
+  exact C10_new_session_eq_fresh cfg s s.ver ns _ p rfl hr hp hcs hc
+
+/-! ## what only the next CONNECT resets (finding #29), and `need_store` between connections -/
+
+namespace C10w29
+/-- `C10ex.s` with the peer's Receive Maximum (1) exhausted -/
+def s : St := { C10ex.s with sendMax := some 1 }
+def pub : Pkt := { ver := 5, kind := .publish, pid := some 4, qos := 1, topic := [116], payloadLen := 1 }
+def script : List Op := [.register 4, .send pub]
+end C10w29
+
+/-- **finding #29**: `publish_send_max` / `publish_send_count` are reset by `initialize` on the
+    next CONNECT, not by `notify_closed`.  Between the two connections the vacancy getter still
+    reports the old connection's credit, and an offline QoS 1 PUBLISH is refused with
+    `ReceiveMaximumExceeded` (and its id released) although no connection exists — a fresh
+    object holding the same session stores it silently. -/
+theorem C10_send_max_survives_close_witness :
+    (closed C10ex.cfg C10w29.s).sendMax = some 1 ∧
+    vacancy (closed C10ex.cfg C10w29.s) = some 0 ∧
+    vacancy (withSession (fresh C10ex.cfg 5 C10w29.s) (closed C10ex.cfg C10w29.s)) = none ∧
+    runEvents C10ex.cfg (closed C10ex.cfg C10w29.s) C10w29.script =
+      [[], [.error eRMExceeded, .released 4]] ∧
+    runEvents C10ex.cfg (withSession (fresh C10ex.cfg 5 C10w29.s) (closed C10ex.cfg C10w29.s))
+      C10w29.script = [[], []] := by
+  decide
+
+namespace C10wNS
+def cfg : Cfg := ⟨.client, 2⟩
+def connect : Pkt := { ver := 4, kind := .connect, size := 14, clean := true }
+/-- `new(v3.1.1)`, `set_offline_publish(true)`, one clean-session connection, closed -/
+def s : St := run cfg (St.init cfg 4) [.setFlag .offline true, .send connect, .closed]
+def pub : Pkt := { ver := 4, kind := .publish, size := 8, pid := some 1, qos := 1, topic := [116] }
+def script : List Op := [.register 1, .send pub]
+end C10wNS
+
+/-- `need_store` **between** connections (new observation): `initialize` clears the
+    `need_store` that `set_offline_publish(true)` had set; after a clean-session connection
+    the reused object (option still on) refuses offline publishes, a fresh object with the
+    same option replayed stores them.  Harmless for the next connection itself
+    (`C10_needStore_overwritten_by_connect`), visible before it. -/
+theorem C10_need_store_between_connections_witness :
+    C10wNS.s.offline = true ∧ C10wNS.s.needStore = false ∧ closed C10wNS.cfg C10wNS.s = C10wNS.s ∧
+    runEvents C10wNS.cfg C10wNS.s C10wNS.script = [[], [.error eNotAllowed, .released 1]] ∧
+    runEvents C10wNS.cfg (freshNS C10wNS.cfg 4 C10wNS.s true) C10wNS.script = [[], []] ∧
+    (run C10wNS.cfg (freshNS C10wNS.cfg 4 C10wNS.s true) C10wNS.script).store =
+      [(1, { C10wNS.pub with dup := true })] := by
+  decide
+
+/-- the canonical replay of the option setters on a new object gives `freshNS … s.offline` -/
+theorem fresh_is_replay (cfg : Cfg) (ver0 : Nat) (s : St) :
+    run cfg (St.init cfg ver0)
+      [.setFlag .offline s.offline, .setFlag .autoPub s.autoPub, .setFlag .autoPing s.autoPing,
+       .setFlag .autoMap s.autoMap, .setFlag .autoReplace s.autoReplace,
+       .setInterval s.userInterval, .setRespTimeout s.respTimeoutMs] =
+    freshNS cfg ver0 s s.offline := by
+  cases ho : s.offline <;> cases hu : s.userInterval <;>
+    simp [run, step, setFlag, setPingreqSendInterval, St.init, freshNS, fresh, ho, hu]
+
+/-! ## C10 (1c): CONNECT without clean start, answered "session not present" -/
+
+/-- an accepted CONNECT without clean start neither reads nor writes the session
+    bookkeeping: it is carried through untouched, whatever it is -/
+theorem connStart_ws {cfg : Cfg} {a : St} {op : Op} {p : Pkt} {ver : Nat} (hver : a.ver = ver)
+    (h : ConnStart cfg ver op p) (hi : Idle a) (hc : p.clean = false) (X : Sess) :
+    step cfg (setSess a X) op = (step cfg a op).ws X := by
+  subst hver
+  obtain ⟨hd, hms, hmr, hpb⟩ := hi
+  cases h with
+  | sent _ hk hv h45 hr hs =>
+    have hrole : roleMaySend cfg.role p = true := by
+      cases hc : cfg.role <;> simp_all [roleMaySend]
+    have e : (setSess a X).ver = a.ver := rfl
+    simp only [step, send, e, hv, ne_eq, not_true_eq_false, if_false, hrole, Bool.not_true,
+      Bool.false_eq_true]
+    rcases h45 with h4 | h5
+    · have : p.ver = 4 := by omega
+      simp only [processSend, this, if_true, hk]
+      exact psV3Connect_ws ⟨cfg, a, []⟩ X p hc
+    · have h5' : ¬ (p.ver = 4) := by omega
+      simp only [processSend, h5', if_false, hk]
+      exact psV5Connect_ws ⟨cfg, a, []⟩ X p hc
+  | received _ _ pb fh data rest _ v hf ht hsz hr hv h45 hp =>
+    have hcan : ∀ s : St, canReceive cfg s 1 = true := by
+      intro s; cases hc : cfg.role <;> simp_all [canReceive]
+    have hnl : ¬ (totalSize data.length > a.mpsRecv) := by rw [hmr]; omega
+    have e1 : (setSess a X).pb = a.pb := rfl
+    have e2 : (setSess a X).mpsRecv = a.mpsRecv := rfl
+    have e3 : (setSess a X).ver = a.ver := rfl
+    simp only [step, recv, e1, e2, e3, hpb, hf, processRecvPacket, hnl, if_false,
+      ht, hcan, Bool.not_true, Bool.false_eq_true]
+    rcases hv with ⟨h0, hlen, hvd⟩ | ⟨hn0, hvv⟩
+    · have hl : ¬ (data.length < 7) := by omega
+      simp only [h0, if_true, hl, if_false, ← hvd]
+      rcases h45 with h4 | h5
+      · simp only [h4, if_true] at hp ⊢
+        rw [hp]
+        exact prV3Connect_ws ⟨cfg, { a with pb := pb, ver := 4 }, []⟩ X p hc
+      · simp only [h5, if_true, (by decide : ¬ ((5:Nat) = 4)), if_false] at hp ⊢
+        rw [hp]
+        exact prV5Connect_ws ⟨cfg, { a with pb := pb, ver := 5 }, []⟩ X p hc hd
+    · simp only [hn0, if_false, dispatchRecv]
+      subst hvv
+      rcases h45 with h4 | h5
+      · have e4 : (a.ver = 4) = True := eq_true h4
+        simp only [e4, if_true]
+        rw [hp]
+        exact prV3Connect_ws ⟨cfg, { a with pb := pb }, []⟩ X p hc
+      · have e4 : (a.ver = 4) = False := eq_false (by omega)
+        simp only [e4, if_false]
+        rw [hp]
+        exact prV5Connect_ws ⟨cfg, { a with pb := pb }, []⟩ X p hc hd
+
+/-- `op` delivers, to an object in state `t` (CONNECT sent, CONNACK outstanding), input bytes
+    that complete a CONNACK frame whose parse is `.ok q` -/
+inductive ConnackRecv (cfg : Cfg) (t : St) : Op → Pkt → Prop
+  | mk (inp : List Nat) (parse : Nat → Nat → List Nat → Except Nat Pkt)
+      (pb : Framing.PB) (fh : Nat) (data rest : List Nat) (q : Pkt)
+      (hf : Framing.feed t.pb inp = (pb, some (.complete fh data), rest))
+      (ht : fh / 16 = 2) (hsz : totalSize data.length ≤ t.mpsRecv) (hr : cfg.role ≠ .server)
+      (hv : t.ver = 4 ∨ t.ver = 5) (hst : t.status ≠ .connected)
+      (hp : parse t.ver fh data = .ok q) : ConnackRecv cfg t (.recv inp parse) q
+
+theorem ConnackRecv.setSess {cfg : Cfg} {t : St} {op : Op} {q : Pkt} (h : ConnackRecv cfg t op q)
+    (X : Sess) : ConnackRecv cfg (setSess t X) op q := by
+  cases h with
+  | mk inp parse pb fh data rest _ hf ht hsz hr hv hst hp =>
+    exact .mk inp parse pb fh data rest q hf ht hsz hr hv hst hp
+
+/-- an accepted CONNACK with return/reason code 0 and session present = 0 overwrites the
+    session bookkeeping (`clear_store_related`) without reading it -/
+theorem connackNew_cs {cfg : Cfg} {t : St} {op : Op} {q : Pkt} (h : ConnackRecv cfg t op q)
+    (hrc : q.rc = some 0) (hsp : q.sp = false) :
+    step cfg t op = step cfg (setSess t (clearSess t.sess)) op := by
+  cases h with
+  | mk inp parse pb fh data rest _ hf ht hsz hr hv hst hp =>
+    have hcan : ∀ s : St, canReceive cfg s 2 = true := by
+      intro s; cases hc : cfg.role <;> simp_all [canReceive]
+    have hnl : ¬ (totalSize data.length > t.mpsRecv) := by omega
+    have hn0 : (t.ver = 0) = False := eq_false (by omega)
+    have e1 : (setSess t (clearSess t.sess)).pb = t.pb := rfl
+    have e2 : (setSess t (clearSess t.sess)).mpsRecv = t.mpsRecv := rfl
+    have e3 : (setSess t (clearSess t.sess)).ver = t.ver := rfl
+    simp only [step, recv, e1, e2, e3, hf, processRecvPacket, hnl, if_false, ht, hcan, Bool.not_true,
+      Bool.false_eq_true, hn0, dispatchRecv, hp]
+    rcases hv with h4 | h5
+    · have e4 : (t.ver = 4) = True := eq_true h4
+      simp only [e4, if_true]
+      exact prV3Connack_new ⟨cfg, { t with pb := pb }, []⟩ q hst hrc hsp
+    · have e4 : (t.ver = 4) = False := eq_false (by omega)
+      simp only [e4, if_false]
+      exact prV5Connack_new ⟨cfg, { t with pb := pb }, []⟩ q hst hrc hsp
+
+theorem scrub_closed_eq_setSess (cfg : Cfg) (s : St) (ver0 : Nat) (ns : Bool) (hver : s.ver = ver0)
+    (hp : (closed cfg s).panic = none) :
+    scrub false (closed cfg s) = setSess (scrub false (freshNS cfg ver0 s ns)) (closed cfg s).sess := by
+  obtain ⟨pm, hb, h⟩ := closed_eq cfg s
+  rw [h, hp]
+  simp [scrub, closedSt, setSess, St.sess, freshNS, fresh, St.init, hver, Framing.PB.reset]
+
+/-- a CONNECT without clean start on the closed object = the same CONNECT on the fresh object,
+    with the closed object's session bookkeeping carried along -/
+theorem closed_connect_eq_ws (cfg : Cfg) (s : St) (ver0 : Nat) (ns : Bool) (op1 : Op) (p1 : Pkt)
+    (hver : s.ver = ver0) (hp : (closed cfg s).panic = none) (h1 : ConnStart cfg ver0 op1 p1)
+    (hc : p1.clean = false) :
+    step cfg (closed cfg s) op1 = (step cfg (freshNS cfg ver0 s ns) op1).ws (closed cfg s).sess := by
+  have hv1 : (closed cfg s).ver = ver0 := by rw [(C10_closed_keeps cfg s).1, hver]
+  have hi2 := freshNS_idle cfg ver0 s ns
+  have e1 := connStart_scrub hv1 h1 (closed_idle cfg s)
+  have e2 := connStart_scrub (a := freshNS cfg ver0 s ns) rfl h1 hi2
+  have e3 := connStart_ws (a := scrub false (freshNS cfg ver0 s ns)) (by simp; rfl) h1 (hi2.scrub false) hc
+    (closed cfg s).sess
+  rw [e1, e2, hc, scrub_closed_eq_setSess cfg s ver0 ns hver hp, e3]
+
+/-- a CONNECT without clean start leaves the session bookkeeping as it was -/
+theorem connStart_sess {cfg : Cfg} {a : St} {op : Op} {p : Pkt} {ver : Nat} (hver : a.ver = ver)
+    (h : ConnStart cfg ver op p) (hi : Idle a) (hc : p.clean = false) :
+    (step cfg a op).s.sess = a.sess := by
+  have := connStart_ws hver h hi hc a.sess
+  rw [setSess_sess] at this
+  have := congrArg (fun c : C => c.s.sess) this
+  simp only [C.ws, sess_setSess] at this
+  exact this
+
+/-- **C10 (1c)**: CONNECT without clean start followed directly by a CONNACK "accepted,
+    session not present" (client side, v3.1.1 and v5.0): after the two calls the reused object
+    and the fresh object are in the same state and have emitted the same events — hence
+    (`run_congr`) they agree on every continuation. -/
+theorem C10_new_session_by_connack_eq_fresh (cfg : Cfg) (s : St) (ver0 : Nat) (ns : Bool)
+    (op1 op2 : Op) (p1 q : Pkt) (hver : s.ver = ver0) (hr : PidRange cfg s)
+    (hp : (closed cfg s).panic = none) (h1 : ConnStart cfg ver0 op1 p1) (hc : p1.clean = false)
+    (h2 : ConnackRecv cfg (step cfg (freshNS cfg ver0 s ns) op1).s op2 q)
+    (hrc : q.rc = some 0) (hsp : q.sp = false) :
+    runEvents cfg (closed cfg s) [op1, op2] = runEvents cfg (freshNS cfg ver0 s ns) [op1, op2] ∧
+    run cfg (closed cfg s) [op1, op2] = run cfg (freshNS cfg ver0 s ns) [op1, op2] := by
+  have hv1 : (closed cfg s).ver = ver0 := by rw [(C10_closed_keeps cfg s).1, hver]
+  have hi2 := freshNS_idle cfg ver0 s ns
+  -- first call
+  have e1 := connStart_scrub hv1 h1 (closed_idle cfg s)
+  have e2 := connStart_scrub (a := freshNS cfg ver0 s ns) rfl h1 hi2
+  have e3 := connStart_ws (a := scrub false (freshNS cfg ver0 s ns)) (by simp; rfl) h1 (hi2.scrub false) hc
+    (closed cfg s).sess
+  have k1 : step cfg (closed cfg s) op1 = (step cfg (freshNS cfg ver0 s ns) op1).ws (closed cfg s).sess := by
+    rw [e1, e2, hc, scrub_closed_eq_setSess cfg s ver0 ns hver hp, e3]
+  have k2 : (step cfg (freshNS cfg ver0 s ns) op1).s.sess = (freshNS cfg ver0 s ns).sess := by
+    have := connStart_ws (a := freshNS cfg ver0 s ns) rfl h1 hi2 hc (freshNS cfg ver0 s ns).sess
+    rw [setSess_sess] at this
+    have := congrArg (fun c : C => c.s.sess) this
+    simp only [C.ws, sess_setSess] at this
+    exact this
+  -- second call
+  have f1 := connackNew_cs (h2.setSess (closed cfg s).sess) hrc hsp
+  have f2 := connackNew_cs h2 hrc hsp
+  have hcl : clearSess (closed cfg s).sess = clearSess (step cfg (freshNS cfg ver0 s ns) op1).s.sess := by
+    rw [k2]
+    have hb : Bnd (closed cfg s).pidMan (Alloc.new 1 cfg.idMax cfg.idMax) :=
+      (C10_closed_keeps cfg s).2.2.2.2.2.2.2.2.2.2.2.2.2.2.2.2.2.1.trans hr
+    simp only [clearSess, St.sess, clear_eq_of_bnd hb]
+    rfl
+  have k3 : step cfg (step cfg (closed cfg s) op1).s op2 =
+      step cfg (step cfg (freshNS cfg ver0 s ns) op1).s op2 := by
+    rw [k1]
+    show step cfg (setSess _ _) op2 = _
+    rw [f1, f2, sess_setSess, setSess_setSess, hcl]
+  simp only [runEvents, run, k3]
+  rw [k1]
+  exact ⟨by rfl, trivial⟩
+
+namespace C10ex
+def connectNC : Pkt := { ver := 5, kind := .connect, size := 20, clean := false, keepAlive := 30, props := [(pSEI, 60)] }
+def connackNew : Pkt := { ver := 5, kind := .connack, size := 5, sp := false, rc := some 0, props := [(pRM, 3)] }
+end C10ex
+
+/-- non-vacuity of `C10_new_session_by_connack_eq_fresh` on the state `C10ex.s` -/
+example : ConnStart C10ex.cfg 5 (.send C10ex.connectNC) C10ex.connectNC ∧ C10ex.connectNC.clean = false ∧
+    ConnackRecv C10ex.cfg (step C10ex.cfg (freshNS C10ex.cfg 5 C10ex.s true) (.send C10ex.connectNC)).s
+      (.recv [32, 3, 0, 0, 0] (fun _ _ _ => .ok C10ex.connackNew)) C10ex.connackNew ∧
+    C10ex.connackNew.rc = some 0 ∧ C10ex.connackNew.sp = false :=
+  ⟨.sent C10ex.connectNC rfl rfl (Or.inr rfl) (by decide) (fun _ => by decide), rfl,
+   .mk [32, 3, 0, 0, 0] _ Framing.PB.reset 32 [0, 0, 0] [] C10ex.connackNew (by decide) (by decide)
+     (by decide) (by decide) (Or.inr (by decide)) (by decide) rfl, rfl, rfl⟩
 
 end MqttVerif.Conn
